@@ -519,10 +519,22 @@ impl World {
         }
     }
 
+    /// a FociSTM's `ss` is the header's sound-speed field: `(device.sound_speed / METER * 64).round() as u16`.
+    /// It is a property of the device, so the spec sets every device's sound speed before the send.
+    fn apply_sound_speed(&mut self, s: &Spec) {
+        if let Spec::Foci { ss, .. } = s {
+            for dev in self.geo.iter_mut() {
+                dev.sound_speed = *ss as f32 * 1000.0 / 64.0;
+            }
+        }
+    }
     pub fn send_spec(&mut self, s: &Spec, max_frames: usize) -> SendOutcome {
+        self.apply_sound_speed(s);
         build(s, SendV { w: self, max_frames })
     }
     pub fn send_pair_spec(&mut self, a: &Spec, b: &Spec, max_frames: usize) -> SendOutcome {
+        self.apply_sound_speed(a);
+        self.apply_sound_speed(b);
         build(a, PairV1 { w: self, b, max_frames })
     }
 
